@@ -17,7 +17,7 @@ def list_jobs(tier):
 def options(tier):
     if tier == "thorough":
         return pipeline.Options(timeout_ms=30000, max_queries=128, unroll=8)
-    return pipeline.Options(timeout_ms=5000, max_queries=48, unroll=4)
+    return pipeline.Options(timeout_ms=3000, max_queries=48, unroll=4, max_unknown=1, budget_s=25.0)
 
 
 EXTRA = [
